@@ -11,7 +11,8 @@ import (
 // lists (with a direction suffix), notification columns, a filter_ref on a
 // top-level input and on a block field, a user-supplied "dependencies" list (the field has no json
 // tag: the key is decoded and kept; it reaches latestDependency), nested event components with a
-// filter_ref of their own, a reserved word as column name, filter_agg, a
+// filter_ref of their own (one with a user-supplied WRONG table that validation must overwrite,
+// one in the documented form {integration, column}), a reserved word as column name, filter_agg, a
 // string-typed input, transaction- and trace-shaped integrations.
 var Seeds = map[string]string{
 	"erc20": `{
@@ -83,11 +84,11 @@ var Seeds = map[string]string{
                  {"name": "order", "type": "tuple",
                   "components": [
                     {"name": "mk", "type": "address", "column": "maker", "filter_op": "contains",
-                     "filter_ref": {"integration": "makers", "table": "makers_t", "column": "maddr"}},
+                     "filter_ref": {"integration": "makers", "table": "elsewhere_t", "column": "maddr"}},
                     {"name": "a", "type": "uint256", "column": "amt"},
                     {"name": "inner", "type": "tuple",
                      "components": [{"name": "s", "type": "bytes32", "column": "salt", "filter_op": "!contains",
-                                     "filter_ref": {"integration": "makers", "table": "makers_t", "column": "maddr"}}]}]}]}
+                                     "filter_ref": {"integration": "makers", "column": "maddr"}}]}]}]}
   }]
 }`,
 	// a referenced table WITHOUT integration: ValidateFilterRefs refuses it on the
@@ -201,6 +202,44 @@ var Seeds = map[string]string{
                  {"name": "m", "type": "string", "column": "memo2"}]}
   }]
 }`,
+	// who depends on whom: two dependents referencing DIFFERENT integrations, references on an
+	// input and on a block field, a "dependencies" key supplied by the user, a self reference.
+	// Integration.Dependencies after ValidateFix is compared with the model's ig_deps, per
+	// integration and in order.
+	"deps": `{
+  "pg_url": "postgres:///shovel",
+  "eth_sources": [{"name": "blast", "chain_id": 81457, "url": "http://127.0.0.1:8545"}],
+  "integrations": [{
+    "name": "da", "enabled": true,
+    "sources": [{"name": "blast", "start": 8, "stop": 8}],
+    "table": {"name": "da_t", "columns": [{"name": "aaddr", "type": "bytea"}]},
+    "event": {"name": "A", "type": "event", "inputs": [{"indexed": true, "name": "x", "type": "address", "column": "aaddr"}]}
+  }, {
+    "name": "db", "enabled": true,
+    "dependencies": ["dc"],
+    "sources": [{"name": "blast", "start": 8, "stop": 8}],
+    "table": {"name": "db_t", "columns": [{"name": "bwho", "type": "bytea"}, {"name": "bto", "type": "bytea"}]},
+    "block": [{"name": "tx_to", "column": "bto", "filter_op": "contains",
+               "filter_ref": {"integration": "dc", "column": "cwho"}}],
+    "event": {"name": "B", "type": "event",
+      "inputs": [{"indexed": true, "name": "x", "type": "address", "column": "bwho", "filter_op": "contains",
+                  "filter_ref": {"integration": "da", "column": "aaddr"}}]}
+  }, {
+    "name": "dc", "enabled": true,
+    "sources": [{"name": "blast", "start": 8, "stop": 8}],
+    "table": {"name": "dc_t", "columns": [{"name": "cwho", "type": "bytea"}]},
+    "event": {"name": "C", "type": "event", "inputs": [{"indexed": true, "name": "x", "type": "address", "column": "cwho"}]}
+  }, {
+    "name": "dd", "enabled": true,
+    "sources": [{"name": "blast", "start": 8, "stop": 8}],
+    "table": {"name": "dd_t", "columns": [{"name": "dwho", "type": "bytea"}, {"name": "dsig", "type": "bytea"}]},
+    "block": [{"name": "tx_signer", "column": "dsig", "filter_op": "contains",
+               "filter_ref": {"integration": "dd", "column": "dwho"}}],
+    "event": {"name": "D", "type": "event",
+      "inputs": [{"indexed": true, "name": "x", "type": "address", "column": "dwho", "filter_op": "contains",
+                  "filter_ref": {"integration": "dc", "column": "cwho"}}]}
+  }]
+}`,
 	"txtrace": `{
   "pg_url": "postgres:///shovel",
   "eth_sources": [{"name": "gnosis", "chain_id": 100, "url": "http://127.0.0.1:8545"}],
@@ -229,7 +268,7 @@ var Seeds = map[string]string{
 }
 
 // SeedOrder fixes the iteration order.
-var SeedOrder = []string{"erc20", "refs", "nested", "txtrace", "reftable", "oddcomps", "shared"}
+var SeedOrder = []string{"erc20", "refs", "nested", "txtrace", "reftable", "oddcomps", "shared", "deps"}
 
 // Markers planted into configuration positions.  Hostile = contains a
 // character outside letters, digits, '_' and '-'.
